@@ -169,10 +169,14 @@ c.ensures("exit/timeout-only-with-management-lock",
 c.ensures("exit/no-task-in-hand", f"implies(has_loop(), tail(implies({GOT}, {ANSWERS} == 1)))", prop=["C07", "C04"])
 c.ensures("exit/sentinel-or-timeout-or-leak", f"implies(has_loop(), tail({GOT} or log_count('cq_get') == 1 or log_count('cq_get_empty') == 1))", prop="C07")
 # C04: nothing but the deliberate sys.exit(1) after a broken call queue escapes
-c.raises("escape/task-failure-never-kills-the-worker", "BaseException", post=f"tail(not {GOT})", prop="C04")
+c.raises("escape/task-failure-never-kills-the-worker", "BaseException",
+         post=f"tail(not {GOT} or log_count('raise:_sendback_result') == 1 or {ANSWERS} == 1)", prop="C04")
+c.note("an exception may leave a task iteration only if the safe sender failed twice (pipe to the parent broken) or after the task was answered")
 c.modifies(f"glob:{PE}._CURRENT_DEPTH", f"glob:{PE}._global_shutdown", "G.sem_released",
            "glob:loky.backend.reduction._loky_pickler_name", "glob:loky.backend.reduction._LokyPickler")
 c.assumes("A-user", "A-async", "A-psutil")
+c.replay_for("depth-installed", "worker_depth", current_depth="current_depth")
+c.replay_for("task-failure-never-kills", "worker_task_failure")
 c.cover("init-fails", "not has_loop()")
 c.cover("clean-exit", "has_loop()")
 c.expect(paths=6)
@@ -650,3 +654,105 @@ c.ensures("shutdown/drops-fd-holding-references",
 c.raises("shutdown/only-pipe-errors-from-wakeup", "Exception")
 c.modifies("self._flags.shutdown", "self._flags.kill_workers", "self._executor_manager_thread", "self._executor_manager_thread_wakeup",
            "self._call_queue", "self._result_queue", "self._processes_management_lock")
+
+# ---------------------------------------------------------------- feeder error path (C04)
+c = M.contract("_SafeQueue._on_queue_feeder_error", props=["C04"])
+c.param("self", T.Ref("_SafeQueue")).param("e", T.Exc()).param("obj", T.Union(T.Ref("_CallItem"), T.NoneT))
+CI = "(obj is not None)"
+WIDF = "obj.work_id"
+FUTF = f"old(self.pending_work_items[{WIDF}]).future"
+c.rely("dispatched-ids-are-running", f"implies({CI}, mem(self.running_work_items, {WIDF}))", "A-atomic")
+c.ensures("onerror/own-future-fails-once",
+          f"implies({CI} and old({WIDF} in self.pending_work_items), G.fut_n_exc[{FUTF}] == old(G.fut_n_exc[{FUTF}]) + 1 and "
+          f"G.fut_n_res[{FUTF}] == old(G.fut_n_res[{FUTF}]))")
+c.ensures("onerror/runtime-error-iff-too-large-else-pickling-error",
+          f"implies({CI} and old({WIDF} in self.pending_work_items), "
+          f"ite(exc_is(e, 'struct.error'), exc_is(as_(G.fut_exc[{FUTF}], '<exc>'), 'RuntimeError'), exc_is(as_(G.fut_exc[{FUTF}], '<exc>'), 'pickle.PicklingError')))")
+c.ensures("onerror/cause-is-the-remote-traceback",
+          f"implies({CI} and old({WIDF} in self.pending_work_items), exc_is(as_(G.fut_exc[{FUTF}], '<exc>').__cause__, '_RemoteTraceback'))")
+c.ensures("onerror/no-other-future-touched", f"implies({CI} and old({WIDF} in self.pending_work_items), " + OTHERS_UNTOUCHED.format(fut=FUTF) + ")")
+c.ensures("onerror/unknown-id-touches-no-future", f"implies({CI} and not old({WIDF} in self.pending_work_items), {NO_FUTURE_TOUCHED})")
+c.ensures("onerror/id-forgotten-and-slot-freed", f"implies({CI}, {WIDF} not in self.pending_work_items and "
+          f"len(self.running_work_items) == old(len(self.running_work_items)) - 1)")
+c.ensures("onerror/other-pending-kept",
+          f"implies({CI}, forall(Int, lambda k: implies(k != {WIDF}, (k in self.pending_work_items) == old(k in self.pending_work_items) and "
+          "self.pending_work_items[k] is old(self.pending_work_items[k]))))")
+c.ensures("onerror/manager-woken-under-shutdown-lock-after-failing-the-future",
+          f"implies({CI}, log_count('call:_ThreadWakeup.wakeup') == 1 and log_arg('call:_ThreadWakeup.wakeup', 0, 1) is self.thread_wakeup and "
+          "log_before('set_exception', 'call:_ThreadWakeup.wakeup') and "
+          "ordered('acquire', lambda l: l is self.shutdown_lock, 'call:_ThreadWakeup.wakeup', lambda r, w: True) and "
+          "exists_event('acquire', lambda l: l is self.shutdown_lock))")
+c.ensures("onerror/not-a-task-leaves-executor-state", f"implies(not {CI}, {NO_FUTURE_TOUCHED} and len(self.pending_work_items) == old(len(self.pending_work_items)))")
+c.raises("onerror/only-pipe-error-from-wakeup", "Exception", post=f"{CI}")
+c.raises_only("onerror/only-exceptions")
+c.modifies("contents(self.pending_work_items)", "contents(self.running_work_items)", "G.fut_n_exc", "G.fut_exc")
+c.assumes("A-atomic")
+c.note("`flags` (broken/shutdown) are not reachable from the queue object: untouched by construction (frame)")
+c.cover("task-too-large", f"{CI} and exc_is(e, 'struct.error') and old({WIDF} in self.pending_work_items)")
+c.cover("task-unpicklable", f"{CI} and not exc_is(e, 'struct.error') and old({WIDF} in self.pending_work_items)")
+
+# ---------------------------------------------------------------- construction (C08, C15, C19, C20)
+M.glob("_system_limits_checked", T.Bool)
+M.glob("_system_limited", T.Obj)
+c = M.contract("_check_system_limits")
+c.raises("limits/too-few-semaphores", "NotImplementedError")
+c.modifies(f"glob:{PE}._system_limits_checked", f"glob:{PE}._system_limited")
+c.trusted_summary = True
+
+c = M.contract("_ThreadWakeup.__init__", props=["C20"])
+c.param("self", T.Ref("_ThreadWakeup"))
+c.ensures("wakeup/open-with-a-fresh-pipe", "self._closed == False and fresh(self._reader) and fresh(self._writer) and self._reader is not self._writer")
+c.ensures("wakeup/one-pipe", "log_count('mp_pipe') == 1")
+c.raises_only("wakeup/no-exception")
+c.modifies("self._closed", "self._reader", "self._writer")
+
+c = M.contract("_ExecutorFlags.__init__", props=["C05"])
+c.param("self", T.Ref("_ExecutorFlags")).param("shutdown_lock", T.Ref("threading.Lock"))
+c.ensures("flags/start-healthy", "self.shutdown == False and self.broken is None and self.kill_workers == False and self.shutdown_lock is shutdown_lock")
+c.raises_only("flags/no-exception")
+c.modifies("self.shutdown", "self.broken", "self.kill_workers", "self.shutdown_lock")
+
+c = M.contract(f"{PPE}._setup_queues", props=["C08", "C15"])
+c.param("self", T.Ref(PPE)).param("job_reducers", T.Obj).param("result_reducers", T.Obj).param("queue_size", T.Opt(T.Int), default=NONE)
+c.requires("wakeup-exists", "self._executor_manager_thread_wakeup is not None")
+c.ensures("queue/capacity-is-twice-the-workers-plus-one",
+          "self._call_queue._maxsize == ite(is_none(queue_size), 2 * self._max_workers + 1, the(queue_size))", prop="C08")
+c.ensures("routing/job-reducers-to-the-call-queue", "self._call_queue._reducers is job_reducers", prop="C15")
+c.ensures("routing/result-reducers-to-the-result-queue", "self._result_queue._reducers is result_reducers", prop="C15")
+c.ensures("queue/call-queue-shares-the-executor-tables",
+          "self._call_queue.pending_work_items is self._pending_work_items and self._call_queue.running_work_items is self._running_work_items and "
+          "self._call_queue.thread_wakeup is self._executor_manager_thread_wakeup and self._call_queue.shutdown_lock is self._shutdown_lock", prop="C04")
+c.ensures("queue/fresh-queues", "fresh(self._call_queue) and fresh(self._result_queue) and self._call_queue._ignore_epipe == True")
+c.raises_only("queue/no-exception")
+c.modifies("self._call_queue", "self._result_queue")
+
+c = M.contract(f"{PPE}.__init__", props=["C08", "C15", "C19", "C09"])
+c.param("self", T.Ref(PPE)).param("max_workers", T.Opt(T.Int), default=NONE).param("job_reducers", T.Obj, default=NONE)
+c.param("result_reducers", T.Obj, default=NONE).param("timeout", T.Opt(T.Real), default=NONE).param("context", T.Ref("Context", nullable=True), default=NONE)
+c.param("initializer", T.Obj, default=NONE).param("initargs", T.Obj, default=NONE).param("env", T.Obj, default=NONE)
+SETUP = "call:ProcessPoolExecutor._setup_queues"
+CHK = "call:_check_max_depth"
+c.ensures("init/max-workers-as-given-or-cpu-count",
+          "self._max_workers == ite(is_none(max_workers), log_arg('call:cpu_count', 0, 0), the(max_workers)) and self._max_workers >= 1", prop="C08")
+c.raises("init/non-positive-max-workers-rejected", "ValueError",
+         post=f"not is_none(max_workers) and the(max_workers) <= 0 and log_count('new_lock') == 0 and log_count('{SETUP}') == 0", prop="C08")
+c.ensures("init/depth-checked-before-any-resource",
+          f"log_count('{CHK}') == 1 and log_before('{CHK}', 'new_lock') and log_before('{CHK}', 'call:_ThreadWakeup.__init__') and log_before('{CHK}', '{SETUP}')", prop="C19")
+c.raises("init/too-deep-raises-before-any-resource", "LokyRecursionError",
+         post=f"log_count('new_lock') == 0 and log_count('call:_ThreadWakeup.__init__') == 0 and log_count('{SETUP}') == 0 and log_count('raise:_check_max_depth') == 1", prop="C19")
+c.at_call(f"{PE}:{PPE}._adjust_process_count", "constructor-never-spawns", "False", prop="C19")
+c.ensures("init/reducers-routed-with-result-defaulting-to-job",
+          f"log_count('{SETUP}') == 1 and log_arg('{SETUP}', 0, 2) is job_reducers and "
+          f"log_arg('{SETUP}', 0, 3) is ite(result_reducers is None, job_reducers, result_reducers)", prop="C15")
+c.ensures("init/starts-healthy-and-empty",
+          "self._flags.shutdown == False and self._flags.broken is None and len(self._processes) == 0 and len(self._pending_work_items) == 0 and "
+          "self._queue_count == 0 and self._executor_manager_thread is None and fresh(self._flags) and fresh(self._processes) and "
+          "self._flags.shutdown_lock is self._shutdown_lock", prop=["C09", "C08"])
+c.ensures("init/configuration-stored", "self._timeout == timeout and self._env is env and self._context is not None", prop="C18")
+c.raises("init/other-construction-errors", "Exception")
+c.modifies("self._max_workers", "self._context", "self._env", "self._initializer", "self._initargs", "self._timeout", "self._executor_manager_thread",
+           "self._processes", "self._queue_count", "self._pending_work_items", "self._running_work_items", "self._work_ids",
+           "self._processes_management_lock", "self._shutdown_lock", "self._executor_manager_thread_wakeup", "self._flags",
+           "self._call_queue", "self._result_queue", f"glob:{PE}._system_limits_checked", f"glob:{PE}._system_limited",
+           "glob:loky.backend.context.physical_cores_cache")
+c.cover("default-size", "is_none(max_workers)")
